@@ -544,7 +544,13 @@ func checkPrependKeepsBoth(m *Module, r *Report, rule string) {
 			if dst == ssa.Value(x) && isParam(cc.Args[1]) {
 				gotA = true
 			}
-			if sl, ok := dst.(*ssa.Slice); ok && strip(sl.X) == ssa.Value(x) && sl.Low != nil && lenOf(sl.Low, isParam) && isCur(cc.Args[1]) {
+			// the second copy starts at len(restored) — or at what the first copy returned, which is
+			// that length (the destination is at least as long)
+			firstCopyCount := func(v ssa.Value) bool {
+				c0, ok := strip(v).(*ssa.Call)
+				return ok && calleeName(&c0.Call) == "builtin.copy" && strip(c0.Call.Args[0]) == ssa.Value(x) && isParam(c0.Call.Args[1])
+			}
+			if sl, ok := dst.(*ssa.Slice); ok && strip(sl.X) == ssa.Value(x) && sl.Low != nil && (lenOf(sl.Low, isParam) || firstCopyCount(sl.Low)) && isCur(cc.Args[1]) {
 				gotB = true
 			}
 		}
